@@ -384,12 +384,12 @@ pub fn gen_large(r: &mut Rng, k: u64) -> OpCase {
             OpCase { same: false, kind: OpKind::Matmul { ta, tb, c: with_c }, dims, vals, mask: mask_of(nops, r.below((1 << nops) - 1)), cell: "large|matmul".into() }
         }
         1 => {
-            let (fr, fc) = (r.range(1, 4), r.range(1, 4));
-            let (h, w) = (fr + r.below(7), fc + r.below(7));
-            let (sr, sc) = (r.range(1, 3), r.range(1, 3));
-            let d = r.range(1, 3);
-            let cnt = r.range(1, 3);
-            let mut di: Vec<usize> = if r.chance(1, 2) { vec![2] } else { vec![] };
+            let (fr, fc) = (r.range(1, 5), r.range(1, 5));
+            let (h, w) = if r.chance(1, 5) { (fr + r.below(3), fc + r.range(8, 20)) } else { (fr + r.below(7), fc + r.below(7)) };
+            let (sr, sc) = (if r.chance(1, 5) { r.range(4, 6) } else { r.range(1, 3) }, if r.chance(1, 5) { r.range(4, 6) } else { r.range(1, 3) });
+            let d = r.range(1, 4);
+            let cnt = r.range(1, 5);
+            let mut di: Vec<usize> = match r.below(6) { 0 | 1 => vec![2], 2 => vec![r.range(5, 6)], 3 => vec![2, 3], _ => vec![] };
             di.extend(&[d, h, w]);
             let df = vec![cnt, d, fr, fc];
             let vals = vec![rand_ints(r, numel(&di), -2, 2), rand_ints(r, numel(&df), -2, 2)];
